@@ -423,6 +423,23 @@ def attempt_segment(env, k, j, rng):
     from whoosh import index
     H, s, ix, ctx = env.H, env.sched, env.ix, env.ctx
     owner = "w%d.%d" % (k, j)
+    stale = getattr(env, "finished_writers", None)
+    if stale is None:
+        stale = env.finished_writers = {}
+    if stale.get(k) and rng.random() < 0.3:
+        # a late call on a writer of this thread that has already finished (e.g. an error handler calling cancel() after
+        # the commit went through): it has no lock and no transaction any more and must not touch what other writers
+        # hold meanwhile - it is refused (IndexingError) on the pinned tree; what matters here is that mutual exclusion and
+        # the committed history stay intact
+        old = rng.choice(stale[k])
+        ctx.count("stale.finished_writer_calls")
+        try:
+            if rng.random() < 0.7:
+                old.cancel()
+            else:
+                old.commit()
+        except Exception:  # noqa
+            ctx.count("stale.finished_writer_calls.refused")
     timeout, delay = draw_timeout(rng)
     a = new_attempt(env, k, j, "segment", timeout, delay)
     ctx.count("front.segment.attempts")
@@ -486,6 +503,7 @@ def attempt_segment(env, k, j, rng):
         ctx.count("finish.commit." + fin_kind)
     fin["ret"] = H.mark()
     H.pending.pop(owner, None)
+    stale.setdefault(k, []).append(w)
     if committed:
         H.expected_commits += 1
         mine = [c for c in H.commits if c["owner"] == owner]
